@@ -15,6 +15,8 @@
                                   stream event (data, FIN, reset, hook completion) is addressed to the client stream or
                                   the server stream of the one layer registered under the event's id
   * stream_commands_address_registered_streams   (all events, incl. the connection-close fan-out)
+  * pairing_is_stable_forever, signals_reach_only_pair_forever, history_addresses_registered_streams
+                                  the same, lifted to whole histories (induction over the event list)
 -/
 import MitmVerif.Lemmas.C30
 namespace MitmVerif.Props.C30
@@ -156,6 +158,112 @@ theorem stream_commands_address_registered_streams (ins : List QIn) (i : QIn) :
     ∀ o ∈ (step ops m i).2, ∀ toClient id', target o = some (toClient, id') →
       ∃ s ∈ (step ops m i).1.streams, if toClient = true then s.cid = id' else s.sid = some id' :=
   (step_spec ops _ i (reach ops ins)).2.2.1
+
+/-! ### whole histories: the per-event statements lifted to every later state (induction over the event list) -/
+
+private theorem foldl_acc (l : List QIn) (m : Mux σ) (acc : List QOut) :
+    l.foldl (fun (a : Mux σ × List QOut) i => ((step ops a.1 i).1, a.2 ++ (step ops a.1 i).2)) (m, acc) =
+    ((l.foldl (fun (a : Mux σ × List QOut) i => ((step ops a.1 i).1, a.2 ++ (step ops a.1 i).2)) (m, [])).1,
+     acc ++ (l.foldl (fun (a : Mux σ × List QOut) i => ((step ops a.1 i).1, a.2 ++ (step ops a.1 i).2)) (m, [])).2) := by
+  induction l generalizing m acc with
+  | nil => simp
+  | cons j t ih =>
+    simp only [List.foldl_cons]
+    rw [ih, ih (step ops m j).1 ([] ++ _)]
+    simp [List.append_assoc]
+
+private theorem run_cons (m : Mux σ) (i : QIn) (is : List QIn) :
+    run ops m (i :: is) =
+      ((run ops (step ops m i).1 is).1, (step ops m i).2 ++ (run ops (step ops m i).1 is).2) := by
+  unfold run
+  simp only [List.foldl_cons]
+  rw [foldl_acc]
+  simp
+
+private theorem run_append (m : Mux σ) (a b : List QIn) :
+    run ops m (a ++ b) = ((run ops (run ops m a).1 b).1, (run ops m a).2 ++ (run ops (run ops m a).1 b).2) := by
+  induction a generalizing m with
+  | nil => simp [run]
+  | cons i t ih => rw [List.cons_append, run_cons, run_cons, ih]; simp [List.append_assoc]
+
+private theorem inv_run (m : Mux σ) (h : MuxInv m) (ins : List QIn) : MuxInv (run ops m ins).1 := by
+  induction ins generalizing m with
+  | nil => exact h
+  | cons i t ih => rw [run_cons]; exact ih _ (step_spec ops m i h).1
+
+private theorem stable_run (m : Mux σ) (h : MuxInv m) (ins : List QIn) :
+    Stable m.streams (run ops m ins).1.streams := by
+  induction ins generalizing m with
+  | nil => exact Stable.refl _
+  | cons i t ih =>
+    rw [run_cons]
+    exact (step_spec ops m i h).2.1.trans (ih _ (step_spec ops m i h).1)
+
+/-- **Stability over whole histories.**  Whatever happens after a layer has been registered — any further
+    interleaving of stream opens, data, resets, hook completions and connection closes — it stays registered with
+    the same client stream id and, once paired, the same server stream id. -/
+theorem pairing_is_stable_forever (pre post : List QIn) :
+    ∀ x ∈ (run ops (Mux.init ops) pre).1.streams,
+      ∃ x' ∈ (run ops (Mux.init ops) (pre ++ post)).1.streams, x'.cid = x.cid ∧ ∀ t, x.sid = some t → x'.sid = some t := by
+  rw [run_append]
+  exact stable_run ops _ (reach ops pre) post
+
+/-- **Ids are never confused, over whole histories.**  Take any event sequence `pre ++ i :: post` where `i` is a
+    stream-level event for stream `id` (from the client or the server).  Unless `i` was ignored or rejected, the layer that
+    is registered under that id in the FINAL state — after all of `post` — is such that every stream command `i` produced
+    was addressed to that layer's client stream or to its server stream.  (With `allocated_ids_unique` that layer is unique.) -/
+theorem signals_reach_only_pair_forever (pre post : List QIn) (i : QIn) (fromClient : Bool) (id : Nat)
+    (hk : eventKey i = some (fromClient, id)) :
+    let outs := (step ops (run ops (Mux.init ops) pre).1 i).2
+    outs = [] ∨ outs = [.fault] ∨
+    ∃ s ∈ (run ops (Mux.init ops) (pre ++ i :: post)).1.streams,
+      (if fromClient = true then s.cid = id else s.sid = some id) ∧
+      ∀ o ∈ outs, ∀ toClient id', target o = some (toClient, id') →
+        if toClient = true then id' = s.cid else s.sid = some id' := by
+  intro outs
+  have hstep := step_spec ops _ i (reach ops pre)
+  rcases hstep.2.2.2 fromClient id hk with h | h | ⟨s, hs, hreg, hg⟩
+  · exact Or.inl h
+  · exact Or.inr (Or.inl h)
+  · refine Or.inr (Or.inr ?_)
+    have hst := stable_run ops _ hstep.1 post
+    obtain ⟨s', hs', hc, hkp⟩ := hst s hs
+    refine ⟨s', ?_, ?_, ?_⟩
+    · rw [run_append, run_cons]; exact hs'
+    · cases fromClient
+      · simp at hreg ⊢; exact hkp _ hreg
+      · simp at hreg ⊢; rw [hc]; exact hreg
+    · intro o ho tc id' ht
+      have := hg o ho tc id' ht
+      cases tc
+      · simp at this ⊢; exact hkp _ this
+      · simp at this ⊢; rw [hc]; exact this
+
+/-- **The whole command history.**  Every stream command the layer has EVER yielded, over any event sequence, is
+    addressed to the client stream or the server stream of a layer that is registered in the final state. -/
+theorem history_addresses_registered_streams (ins : List QIn) :
+    ∀ o ∈ (run ops (Mux.init ops) ins).2, ∀ toClient id', target o = some (toClient, id') →
+      ∃ s ∈ (run ops (Mux.init ops) ins).1.streams, if toClient = true then s.cid = id' else s.sid = some id' := by
+  have gen : ∀ (ins : List QIn) (m : Mux σ), MuxInv m →
+      ∀ o ∈ (run ops m ins).2, ∀ toClient id', target o = some (toClient, id') →
+        ∃ s ∈ (run ops m ins).1.streams, if toClient = true then s.cid = id' else s.sid = some id' := by
+    intro ins
+    induction ins with
+    | nil => intro m _ o ho; simp [run] at ho
+    | cons i t ih =>
+      intro m h o ho tc id' ht
+      rw [run_cons] at ho ⊢
+      have hstep := step_spec ops m i h
+      simp only [List.mem_append] at ho
+      rcases ho with ho | ho
+      · obtain ⟨s, hs, hm⟩ := hstep.2.2.1 o ho tc id' ht
+        obtain ⟨s', hs', hc, hkp⟩ := stable_run ops _ hstep.1 t s hs
+        refine ⟨s', hs', ?_⟩
+        cases tc
+        · simp at hm ⊢; exact hkp _ hm
+        · simp at hm ⊢; rw [hc]; exact hm
+      · exact ih _ hstep.1 o ho tc id' ht
+  exact gen ins _ (init_inv ops)
 
 /-! ### non-vacuity: concrete runs of the model with the C29 relay as child -/
 
